@@ -44,6 +44,8 @@ def validate(sp: dict, raw: str) -> T.Optional[str]:
         return raw.lower() if raw.lower() in ('true', 'false') else None
     if t == 'combo':
         return raw if raw in sp['c'] else None
+    if t == 'feature':
+        return raw if raw in ('enabled', 'disabled', 'auto') else None
     if t == 'array':
         # command line: comma separated; a stored value ('[x, y]') is re-validated when the choices change
         body = raw[1:-1] if raw.startswith('[') and raw.endswith(']') else raw
